@@ -25,6 +25,7 @@ struct R : Runner {
 		if (g_group == "logic") { ops1 = {OP_bnot}; ops2 = {OP_band, OP_bor, OP_bxor}; }
 		if (g_group == "cmp") { ops1 = {OP_inc, OP_dec}; ops2 = {OP_eq, OP_ne, OP_lt, OP_le, OP_gt, OP_ge}; }
 		if (g_group == "conv") { ops1 = {OP_to_f64, OP_to_f64_rt}; }
+		if (g_group == "sqrt") { ops1 = {OP_sqrt}; }
 	}
 	std::string run(int op, const std::vector<std::string>& a) override {
 		return guarded([&]() -> std::string {
@@ -37,6 +38,7 @@ struct R : Runner {
 			case OP_div: return Tr::out(x / Tr::mk(a[1]));
 			case OP_rem: return Tr::out(x % Tr::mk(a[1]));
 			case OP_neg: return Tr::out(-x);
+			case OP_sqrt: return Tr::out(sqrt(x));
 			case OP_shl: { x <<= (int)hexu64(a[1]) - SHIFT_BIAS; return Tr::out(x); }
 			case OP_shr: { x >>= (int)hexu64(a[1]) - SHIFT_BIAS; return Tr::out(x); }
 			case OP_band: return Tr::out(x & Tr::mk(a[1]));
